@@ -134,10 +134,17 @@ TEXTAREA_TEXTS = ["x", "a<b", "a>b", "\"q\"", "line\nline", "é", "<b>bold", ""]
 VALUES = ["a", "", "a b", "a\"b", "it's", "<", ">", "&", "a&amp;b", "</p>", "é€😀", " x ", "1", "x\ny", "a=b", "'\"'",
           "&lt;", "javascript:alert(1)", "#frag", "100%", "\\"]
 CLASS_VALUES = ["a", "a b", "  a   b ", "", " ", "a\tb", "x-1 y_2", "a a", "é", "a\nb ", "c<d", "q\"r"]
-CLASS_NAMES = ["foo", "bar", "b-1", "on", "a"]
+CLASS_NAMES = ["foo", "bar", "b-1", "on", "a", "md:flex", "hover:bg-red-500", "card--active", "w.half", "p-2",
+               "lg:hover:x-1", "-m-1"]
 STYLE_VALUES = ["a:b", "color:red;", " a:b ; c:d ", "", "x:y;;z:w", "background:url(\"i.png\")", "a:b;", " ", "w:1px ;"]
-STYLE_PROPS = ["color", "top", "margin-left", "--v"]
+STYLE_PROPS = ["color", "top", "margin-left", "--v", "--accent-color", "background-color"]
 STYLE_PVALS = ["red", "1px", "a b", "\"x\"", "0", "calc(1px + 2px)", "<"]
+
+
+# non-string literals as attribute values: (source spelling, what Display / to_string() gives)
+NUM_LITS = [("3", "3"), ("2.50", "2.5"), ("1.0", "1"), ("1e3", "1000"), ("0.5", "0.5"), ("1_000", "1000"), ("0x10", "16"),
+            ("2.5e-1", "0.25"), ("-1", "-1"), ("-2.50", "-2.5"), ("'c'", "c"), ("'<'", "<"), ("'\"'", "\""), ("10u8", "10"),
+            ("1.5f32", "1.5"), ("100.0", "100"), ("0", "0")]
 
 
 def pick(rng, l):
@@ -163,7 +170,11 @@ def gen_attrs(rng, tag, kind, dyn_p):
             used.add(name)
             d = rng.random()
             if d >= dyn_p:
-                out.append(["p", name, ["lit", pick(rng, VALUES)]])
+                if rng.random() < 0.12:
+                    src, shown = pick(rng, NUM_LITS)
+                    out.append(["p", name, ["num", src, shown]])     # value=2.50: a literal, but not a string
+                else:
+                    out.append(["p", name, ["lit", pick(rng, VALUES)]])
             elif d < dyn_p * 0.6:
                 out.append(["p", name, ["str", pick(rng, VALUES)]])
             elif d < dyn_p * 0.8:
@@ -176,7 +187,10 @@ def gen_attrs(rng, tag, kind, dyn_p):
                 continue
             used.add(name)
             if rng.random() >= dyn_p:
-                out.append(["p", name, ["none"]])
+                if rng.random() < 0.15:
+                    out.append(["p", name, ["blit", rng.random() < 0.6]])   # hidden=true / hidden=false
+                else:
+                    out.append(["p", name, ["none"]])
             else:
                 out.append(["p", name, ["bool", rng.random() < 0.6]])
         elif r < 0.76:
@@ -379,6 +393,17 @@ FIXED = [
                                                ["su", "top", "1px"], ["p", "data-a", ["lit", "1"]]], [["t", "x"]]]]]]),
 ]
 # oracle-only (not expressible in the Coq template AST)
+FIXED += [
+    ("literal-kinds", [["e", "div", [], [["e", "input", [["p", "value", ["num", "2.50", "2.5"]], ["p", "max", ["num", "1e3", "1000"]],
+                                                      ["p", "data-a", ["num", "1.0", "1"]], ["p", "tabindex", ["num", "-1", "-1"]],
+                                                      ["p", "title", ["num", "'<'", "<"]], ["p", "hidden", ["blit", True]],
+                                                      ["p", "disabled", ["blit", False]]], []]]]]),
+    ("literal-kinds", [["e", "div", [], [["e", "td", [["p", "colspan", ["num", "2", "2"]], ["p", "class", ["lit", "k"]]], [["t", "x"]]]]]]),
+    ("class-names", [["e", "div", [], [["e", "p", [["ct", "md:flex", True], ["ct", "hover:bg-red-500", None], ["ct", "w.half", True],
+                                               ["ct", "card--active", True], ["cu", ["lg:hidden"], True, False],
+                                               ["sp", "--accent-color", "red", True], ["sp", "background-color", "blue", False]],
+                                        [["t", "x"]]]]]]),
+]
 FIXED_ORACLE_ONLY = [
     ("inner-html", [["e", "div", [], [["e", "p", [["p", "inner_html", ["lit", "<b>x</b>"]]], []]]]]),
 ]
@@ -438,7 +463,8 @@ def enc_attr(a):
     if k == "p":
         v = a[2]
         av = {"lit": lambda: [0, v[1]], "none": lambda: [1], "str": lambda: [2, v[1]],
-              "bool": lambda: [3, int(v[1])],
+              "num": lambda: [2, v[2]],          # a non-string literal: not static, renders its Display
+              "bool": lambda: [3, int(v[1])], "blit": lambda: [3, int(v[1])],
               "opt": lambda: [4] if v[1] is None else [5, v[1]]}[v[0]]()
         return [0, a[1], av]
     if k == "ct":
@@ -520,6 +546,10 @@ def rust_attr(a):
             return name
         if v[0] == "str":
             return "%s={s(%s)}" % (name, rust_str(v[1]))
+        if v[0] == "num":
+            return "%s=%s" % (name, v[1])
+        if v[0] == "blit":
+            return "%s=%s" % (name, "true" if v[1] else "false")
         if v[0] == "bool":
             return "%s={%s()}" % (name, "tb" if v[1] else "fb")
         return "%s={%s}" % (name, "no()" if v[1] is None else "so(%s)" % rust_str(v[1]))
@@ -723,9 +753,11 @@ def expect_attrs(attrs):
             v = a[2]
             if v[0] in ("lit", "str"):
                 pairs.append((a[1], v[1]))
+            elif v[0] == "num":
+                pairs.append((a[1], v[2]))
             elif v[0] == "none":
                 pairs.append((a[1], ""))
-            elif v[0] == "bool":
+            elif v[0] in ("bool", "blit"):
                 if v[1]:
                     pairs.append((a[1], ""))
             elif v[1] is not None:
@@ -1089,7 +1121,7 @@ def nontrivial(item, model):
     if not isinstance(m, list):
         return False
     dyn = json.dumps(item["tpl"])
-    return m[0] != m[1] or any(x in dyn for x in ('"b"', '"str"', '"bool"', '"opt"', '"ct"', '"cu"', '"sp"', '"su"'))
+    return m[0] != m[1] or any(x in dyn for x in ('"b"', '"str"', '"bool"', '"opt"', '"ct"', '"cu"', '"sp"', '"su"', '"num"', '"blit"'))
 
 
 def setup():
